@@ -940,7 +940,8 @@ impl<'p> Evaluator<'_, 'p> {
             }
             None
         } else {
-            float::try_to_usize(maxsplits).and_then(|v| v.checked_add(1))
+            // A limit that does not fit in `usize` still splits from the right.
+            Some(float::try_to_usize(maxsplits).map_or(usize::MAX, |v| v.saturating_add(1)))
         };
 
         let result_array = if let Some(maxsplits) = maxsplits {
